@@ -17,6 +17,8 @@ import numpy as np  # noqa: E402
 from common import fr  # noqa: E402
 
 np.seterr(all="ignore")
+import warnings  # noqa: E402
+warnings.simplefilter("ignore")
 
 PARS = {"P1": dict(T=1 / 360, tau=1 / 200, eta=60.0, kappa=40.0, delta=0.0122),
         "P2": dict(T=1 / 720, tau=1 / 150, eta=45.0, kappa=35.0, delta=0.02)}
@@ -118,14 +120,15 @@ class World:
             "L2": sm.LinkWithVsl(*lk("L2"), turnrate=1.0, name="L2", segments_with_vsl={0}, alpha=0.1),
             "L3": sm.Link(*lk("L3"), turnrate=2.0, name="L3"),
             "O1": sm.MainstreamOrigin(name="O1"), "R1": sm.MeteredOnRamp(2000.0, "out", name="R1"),
-            "R2": sm.SimplifiedMeteredOnRamp(1500.0, "limited", name="R2"), "D1": sm.CongestedDestination(name="D1"),
+            "R2": sm.SimplifiedMeteredOnRamp(1500.0, "limited", name="R2"), "D0": sm.Destination(name="D0"),
+            "D1": sm.CongestedDestination(name="D1"),
         }
         self.nodes = [sm.Node(name=f"N{i}") for i in (1, 2, 3)]
         n1, n2, n3 = self.nodes
         self.net = sm.Network(name="life")
-        self.net.add_path([n1, self.el["L1"], n2, self.el["L2"], n3], origin=self.el["O1"], destination=self.el["D1"])
+        self.net.add_path([n1, self.el["L1"], n2, self.el["L2"], n3], origin=self.el["O1"], destination=self.el["D0"])
         self.net.add_origin(self.el["R1"], n2)
-        self.la, self.r = "L1", "R1"
+        self.la, self.r, self.dst = "L1", "R1", "D0"
         self.explicit = {"np": NE("rand"), "sx": CE("SX"), "mx": CE("MX")}
         self.default = engines.use("casadi")
         self.insts = {"default": self.default}
@@ -144,7 +147,7 @@ class World:
         return out
 
     def innet(self):
-        return [self.la, "L2", "O1", self.r, "D1"]
+        return [self.la, "L2", "O1", self.r, self.dst]
 
     def engine(self, k):
         return None if k == "" else self.explicit[k]
@@ -163,7 +166,7 @@ class World:
         ic = {}
         for i in self.innet():
             d = {}
-            for var, v in VALS[vals][i].items():
+            for var, v in VALS[vals].get(i, {}).items():
                 if k == "np":
                     d[var] = np.array(v, float)
                 else:
@@ -227,7 +230,7 @@ class World:
                 ic = self.caller_values(c[4], k) if c[4] else None
                 self.net.step(init_conditions=ic, engine=self.engine(c[1]), **OPTS[c[3]], **PARS[c[2]])
                 if c[4] and k == "np":
-                    self.repeat.append((self.la, self.r, c[4], c[2], c[3], self.next_np()))
+                    self.repeat.append((self.la, self.r, c[4], c[2], c[3], self.next_np(), self.dst))
                 return ("ok", None)
             if op == "init":
                 self.el[c[1]].init_vars(engine=self.engine(c[2]))
@@ -243,6 +246,9 @@ class World:
                 if c[1] == "R2":
                     self.net.add_origin(self.el["R2"], self.nodes[1])
                     self.r = "R2"
+                elif c[1] == "D1":
+                    self.net.add_destination(self.el["D1"], self.nodes[2])
+                    self.dst = "D1"
                 else:
                     self.net.add_link(self.nodes[0], self.el["L3"], self.nodes[1])
                     self.la = "L3"
@@ -263,20 +269,22 @@ class World:
             groups = [g for g in (e.states, e.actions, e.disturbances) if g]
             kinds = sorted({kind_of_value(v) for g in groups for v in g.values()})
             o["vars"][i] = kinds[0] if len(kinds) == 1 else ("" if not kinds else "+".join(kinds))
-            if i != "D1":
+            if i not in ("D0", "D1"):
                 ks = sorted({kind_of_value(v) for v in (e.next_states or {}).values()})
                 o["nxt"][i] = ks[0] if len(ks) == 1 else ("" if not ks else "+".join(ks))
         return o
 
 
-def fresh_np_step(la, r, vals, par, opts):
+def fresh_np_step(la, r, vals, par, opts, dst="D0"):
     """the same values stepped on a freshly built network (C12: repeatability oracle)"""
     w = World()
     if la == "L3":
         w.call(["add_later", "L3"])
     if r == "R2":
         w.call(["add_later", "R2"])
-    ic = {w.el[i]: {var: np.array(v, float) for var, v in VALS[vals][i].items()} for i in w.innet()}
+    if dst == "D1":
+        w.call(["add_later", "D1"])
+    ic = {w.el[i]: {var: np.array(v, float) for var, v in VALS[vals].get(i, {}).items()} for i in w.innet()}
     w.net.step(init_conditions=ic, engine=w.NE(), **OPTS[opts], **PARS[par])
     return w.next_np()
 
@@ -295,20 +303,21 @@ def dyn_record(w: World, t: dict, sym: str):
     okind = {"R1": ("ramp_out", 2000.0), "R2": ("simp_limited", 1500.0)}[w.r]
     net = {"links": links, "origins": {"O1": dict(node="N1", kind="mainstream", C=fr(0.0)),
                                        w.r: dict(node="N2", kind=okind[0], C=fr(okind[1]))},
-           "dests": {"D1": dict(node="N3", kind="congested")}}
+           "dests": {w.dst: dict(node="N3", kind="congested" if w.dst == "D1" else "free")}}
     V = VALS["V1"]
     uname = {"R1": "r", "R2": "q"}[w.r]
     x = {"rho": {i: [fr(z) for z in V[i]["rho"]] for i in links}, "v": {i: [fr(z) for z in V[i]["v"]] for i in links},
          "w": {"O1": fr(V["O1"]["w"][0]), w.r: fr(V[w.r]["w"][0])}}
     u = {"vctrl": {"L2": [fr(z) for z in V["L2"]["v_ctrl"]]}, "o": {"O1": fr(V["O1"]["v_ctrl"][0]), w.r: fr(V[w.r][uname][0])}}
-    d = {"o": {"O1": fr(V["O1"]["d"][0]), w.r: fr(V[w.r]["d"][0])}, "dest": {"D1": fr(V["D1"]["d"][0])}}
+    d = {"o": {"O1": fr(V["O1"]["d"][0]), w.r: fr(V[w.r]["d"][0])}, "dest": ({"D1": fr(V["D1"]["d"][0])} if w.dst == "D1" else {})}
     byname = {}
     for i in links:
         byname[f"rho_{i}"], byname[f"v_{i}"] = V[i]["rho"], V[i]["v"]
     byname["v_ctrl_L2"] = V["L2"]["v_ctrl"]
     byname["w_O1"], byname["v_ctrl_O1"], byname["d_O1"] = V["O1"]["w"], V["O1"]["v_ctrl"], V["O1"]["d"]
     byname[f"w_{w.r}"], byname[f"{uname}_{w.r}"], byname[f"d_{w.r}"] = V[w.r]["w"], V[w.r][uname], V[w.r]["d"]
-    byname["d_D1"] = V["D1"]["d"]
+    if w.dst == "D1":
+        byname["d_D1"] = V["D1"]["d"]
     F = w.F
     fn = {"sym": sym.upper(), "compact": 0, "more_out": False, "params": [], "ok": False, "err": "", "free": 0,
           "name_in": list(F.name_in()), "name_out": list(F.name_out()),
@@ -373,7 +382,13 @@ def replay_transition(t: dict) -> dict:
             if exp[1] == "RuntimeError" and not isinstance(last[1], RuntimeError):
                 out["c19"].append(["compiling an unready network raised " + name + " instead of a runtime error", c])
     elif last[0] == "error":
-        out["crash"].append([f"call raised {type(last[1]).__name__}: {str(last[1])[:120]}", c])
+        whole = all(x[0] in ("use", "use_inst", "net_step", "compile") for x in hist)
+        if c[0] == "compile" and not whole:
+            # a fully initialised and stepped network that does not compile after per-element calls: outside the listed
+            # properties (C19 only says when compiling MUST fail; C07 covers networks stepped as a whole)
+            out["drift"].append([f"compile raised {type(last[1]).__name__} on a network the model calls ready", c])
+        else:
+            out["crash"].append([f"call raised {type(last[1]).__name__}: {str(last[1])[:120]}", c])
     # ---- C13: selection semantics and kinds
     if c[0] == "use" and exp[0] == "engine" and last[0] == "engine":
         if last[1] is not w.engines.get_current_engine() or obs["cur_kind"] != exp[1]:
@@ -401,8 +416,8 @@ def replay_transition(t: dict) -> dict:
         if exp[1]:
             out["dyn"] = dyn_record(w, t, c[1])
     # ---- C12: repeatability of every NumPy step from caller values made along this history
-    for la, r, vals, par, opts, got in w.repeat:
-        ref = fresh_np_step(la, r, vals, par, opts)
+    for la, r, vals, par, opts, got, dst in w.repeat:
+        ref = fresh_np_step(la, r, vals, par, opts, dst)
         for k_, v in ref.items():
             if k_ not in got or not np.array_equal(got[k_], v, equal_nan=True):
                 out["c12"].append(["stepping from the same values gave a different next state than on a fresh network", list(k_), vals, par, opts])
